@@ -186,6 +186,7 @@ def run(chk):
     results = common.run_driver('model', requests)
     chk.corr_cases = len(requests)
     kernel_crosscheck(chk, requests, results)
+    cli_stream(chk)
     for (case, kind, exp), got in zip(expect, results):
         if kind == 'canon':
             g = d_opt(d_str, got)
@@ -195,6 +196,44 @@ def run(chk):
             g = d_opt(common.d_node, got)
         if g != exp and not (kind == 'tree' and g is not None and norm_node(g) == norm_node(exp)):
             chk.mismatch(f'{kind} differs', case, exp, g)
+
+
+def cli_stream(chk):
+    """The property is also observed at `penman --canonicalize-roles`: canonicalisation happens on the TREE, before the
+    graph is interpreted, so every later stage (triples output, reification) sees canonical roles."""
+    import penman
+    from penman import layout, transform
+    from penman.model import Model
+    from penman.models.amr import model as amr
+    from penman.tree import Tree
+    from harness import c20, gen
+    n = 80 if chk.tier == 'quick' else 800
+    roles = [':ARG0', ':ARG0-of', ':ARG0-of-of', ':ARG1-of-of-of', ':mod', ':mod-of', ':domain-of', ':domain-of-of-of', 'ARG2',
+             ':consist-of', ':consist-of-of', ':quant', ':polarity']
+    for i in range(n):
+        node = gen.random_tree_node(chk.rng, gen.fresh_vars(), maxdepth=chk.rng.choice([1, 2, 3]), wf=True, roles=roles,
+                                    atoms=['x', 'y', '7', '-', '"s"'])
+        if any(not r.startswith(':') and r != '/' for r, _ in node[1]):
+            pass
+        text = penman.format(Tree(node), indent=None) + '\n'
+        for flags, m in ((['--amr'], amr), ([], Model())):
+            for extra in (['--triples'], ['--reify-edges'], []):
+                case = {'stream': 'cli', 'text': text, 'flags': flags + ['--canonicalize-roles'] + extra}
+                chk.count(('cli', text, tuple(flags + extra)))
+                try:
+                    t = transform.canonicalize_roles(penman.parse(text), m)
+                    g = layout.interpret(t, m)
+                    if extra == ['--reify-edges']:
+                        g = transform.reify_edges(g, m)
+                    want = (penman.format_triples(g.triples) if extra == ['--triples'] else penman.encode(g, model=m)) + '\n'
+                except Exception:       # noqa
+                    continue
+                runner = c20.run_cli_subprocess if i % 40 == 0 else c20.run_cli_inprocess
+                out, code, err = runner(flags + ['--canonicalize-roles'] + extra, text, [])
+                if out != want:
+                    chk.fail('cli', 'penman --canonicalize-roles does not canonicalise the tree before interpreting it: output differs '
+                                    'from the library pipeline', dict(case, got=out, want=want))
+    chk.stat('cli-texts', n)
 
 
 def coq_str(codes):
